@@ -194,6 +194,36 @@ def warm_up(case, sim, algo):
         network.update_constraint("con-%d" % k, _con_current(c), c["lim"] / U)
 
 
+def call_form(case):
+    """How the algorithm is invoked: run() (sessions fetched through the Interface), or schedule() with
+    sessions the caller built itself - bounds as lists, or as ndarrays that sessions with the same
+    remaining time SHARE (a caller may well build them from one array).  The specification's result
+    depends on the values only."""
+    if case["opt"]["algo"] == "unc":
+        return "run"
+    return ("run", "run", "schedule-lists", "schedule-shared")[int(case_id(case)[10:13], 16) % 4]
+
+
+def call_algorithm(case, sim, algo):
+    form = call_form(case)
+    if form == "run":
+        return algo.run()
+    import numpy as np
+    from acnportal.acnsim.interface import SessionInfo
+    shared = {}
+    hand = []
+    for x in algo.interface.active_sessions():
+        rt = x.remaining_time
+        if form == "schedule-lists":
+            lo, hi = [0] * rt, [float("inf")] * rt
+        else:
+            # integer zeros, as the Interface builds them (see TruncA in SortedAlgo.tla)
+            lo, hi = shared.setdefault(rt, (np.zeros(rt, dtype=int), np.full(rt, np.inf)))
+        hand.append(SessionInfo(x.station_id, x.session_id, x.requested_energy, x.energy_delivered, x.arrival,
+                                x.departure, x.estimated_departure, x.current_time, min_rates=lo, max_rates=hi))
+    return algo.schedule(hand)
+
+
 def is_warm(case):
     return int(case_id(case)[6:10], 16) % 3 == 0
 
@@ -211,7 +241,7 @@ def run_case(case):
             return {"exc": "reconfiguring the network: %s: %s" % (type(e).__name__, str(e)[:200])}
         try:
             with _Recorder(algo) as rec:
-                sched = algo.run()
+                sched = call_algorithm(case, sim, algo)
         except Exception as e:  # noqa
             return {"exc": "%s: %s" % (type(e).__name__, str(e)[:200])}
         bad = [k for k in sched if k not in [station_id(i) for i in range(n)]]
@@ -539,7 +569,7 @@ def settle_lattice(lines, meta, verdicts, rep, prop, own_fields):
 
 
 # ---------------------------------------------------------------------------------- closed loop
-LEVEL_SETS = ([0, 8, 16, 24, 32], [0, 6, 12, 18, 24, 30], [0] + list(range(6, 33)), [0, 6, 8, 10, 13, 16])
+LEVEL_SETS = ([0, 8, 16, 24, 32], [0, 6, 12, 18, 24, 30], [0] + list(range(6, 33)), [0, 6, 8, 10, 13, 16], [0, 7.5, 15, 22.5, 30])
 ANGLES = (30, -90, 150)
 
 
@@ -741,6 +771,8 @@ def _lattice(rep, prop, q, par):
     if q:
         mcs = [({}, "%sQ lattice" % tag)]
         gens = [{"Infras": "<- Infras%sQ" % tag, "Profiles": "<- Prof%sQ" % tag, "Opts": "<- Opts%sQ%d" % (tag, k)} for k in (1, 2)]
+        # two sessions with the same departure (they may share bound arrays when the caller builds them)
+        gens.append({"Infras": "<- InfrasShare", "Profiles": "<- ProfShare", "Opts": "<- OptsShare"})
     else:
         mcs = [({"Infras": "<- Infras%sT" % tag, "Profiles": "<- Prof%sT" % tag, "Opts": "<- Opts%sT" % tag}, "three-station infrastructures"),
                ({"Infras": "<- Infras%sN" % tag, "Profiles": "<- Prof%sN" % tag, "Opts": "<- Opts%sT" % tag}, "four-station infrastructures")]
